@@ -207,8 +207,12 @@ class CMDResponse(py4hw.Logic):
                 self.valid.prepare(1)
             else:
                 self.valid.prepare(0)
-                self.state = 3
-                self.aux = (self.temp >> (self.temp_size*4))   & 0xF
+                if (self.temp_size < 0):
+                    # size 0: there are no digits to send, go to the final '!'
+                    self.state = 5
+                else:
+                    self.state = 3
+                    self.aux = (self.temp >> (self.temp_size*4))   & 0xF
         elif (self.state == 3): # SEND Most Significant Nibble
             if (self.ready.get()):
                 self.state = 4
